@@ -172,7 +172,11 @@ def finish(res, tier, seed, level, t0, checker_cmd, explanation=""):
     for m in missing:
         undecided.append(f"baseline obligation {m} was not generated on this tree")
 
-    # ---- report
+    # ---- report (stale replay files of earlier runs are removed first)
+    import glob
+    if not os.environ.get("VERIF_KEEP_REPLAYS"):
+        for f in glob.glob(os.path.join(ROOT, "replays", prop, "*.json")):
+            os.remove(f)
     printed = set()
     for f, item in known_hits:
         if f["id"] in printed:
